@@ -1,6 +1,7 @@
 package server
 
 import (
+	"time"
 	"fmt"
 	"testing"
 
@@ -39,4 +40,25 @@ func TestVerifSmoke(t *testing.T) {
 		}
 	}
 	r.Eval(1)
+}
+
+func TestVerifSessTiming(t *testing.T) {
+	r := vh.Start(t, "SMOKE")
+	defer r.Finish()
+	r.Eval(1)
+	cfg := zvSessCfgs()[0]
+	for _, h := range [][]string{nil, {evT15}, {evT15, evOpen, evKA}, {evT15, evOpen, evKA, evT4}, {evT15, evT15, evT15, evT15}} {
+		t0 := time.Now()
+		var steps int
+		x := vsched.Exec(vsched.Config{MaxSteps: 200000}, func() {
+			s := zvSessStart(cfg)
+			for _, e := range h {
+				s.apply(e)
+			}
+			o := s.observe()
+			fmt.Printf("%v -> %s view=%v other=%v clients=%d\n", h, o.State, o.View, o.LocOther, o.RibClients)
+		})
+		steps = x.Steps
+		fmt.Println("  steps", steps, "wall", time.Since(t0), x.Status)
+	}
 }
